@@ -8,7 +8,7 @@ site = dict(fn, bb, kind, ops (provenance exprs), canon key, span).  A site is a
   D5  known zero          x + c   under a dominating fact x == 0
 Everything else must be in the caller's reviewed table or is reported.
 """
-from .prov import const_value, strip_casts, walk_deep, show
+from .prov import const_value, strip_casts, walk, walk_deep, show
 from .dtable import canon
 from .fold import fold
 
@@ -170,6 +170,48 @@ def range_bounded(idx, length, ctx):
     return False
 
 
+def position_bounded(idx, length, ctx):
+    """idx is `p` or `p - k` where p is the Some payload of `iter.position(..)` / `iter.rposition(..)` and iter walks the slice whose length
+    is `length` (or a sub-slice taken from it with a range): a position is below the number of elements walked, hence below `length`.
+    `p + k` is not accepted."""
+    e = strip_casts(idx)
+    for _ in range(4):
+        if isinstance(e, tuple) and e[0] in ("bin", "overflow") and str(e[1]).startswith("Sub") and fold(e[3]) is not None and fold(e[3]) >= 0:
+            e = strip_casts(e[2])
+        elif isinstance(e, tuple) and e[0] == "field" and isinstance(e[1], tuple) and e[1][0] in ("bin", "overflow") and str(e[2]) == "0":
+            e = strip_casts(e[1])
+        else:
+            break
+    if any(z[0] in ("bin", "overflow") for z in walk(e)):
+        return False
+    def base(x, n=10):
+        """the place a slice expression stands for: length-of / reference / dereference / sub-slicing peeled off"""
+        x = strip_casts(x)
+        while isinstance(x, tuple) and x and n > 0:
+            n -= 1
+            if x[0] in ("len", "ptrmeta") and len(x) > 1:
+                x = strip_casts(x[1])
+            elif x[0] == "un" and x[1] == "PtrMetadata":
+                x = strip_casts(x[2])
+            elif x[0] == "call" and (x[1] or "").endswith(("<impl [T]>::len", "Index::index", "::get_unchecked", "<impl [T]>::as_ref")) and x[2]:
+                x = strip_casts(x[2][0])
+            elif x[0] in ("ref", "addr") and len(x) > 2:
+                x = strip_casts(x[2])
+            elif x[0] == "deref":
+                x = strip_casts(x[1])
+            else:
+                break
+        return canon(x)
+    cl = base(length)
+    for x in walk_deep(e, ctx.prov, limit=80):
+        if x[0] == "call" and (x[1] or "").endswith(("Iterator::position", "Iterator::rposition", "::position", "::rposition")) and x[2]:
+            for y in walk_deep(x[2][0], ctx.prov, limit=80):
+                if y[0] == "call" and (y[1] or "").endswith("<impl [T]>::iter") and y[2]:
+                    if base(y[2][0]) == cl:
+                        return True
+    return False
+
+
 def same_len(a, b):
     sa, sb = src_of_len(a), src_of_len(b)
     return sa is not None and sa == sb
@@ -244,6 +286,8 @@ def discharge(ctx, site):
         length, idx = ops
         if range_bounded(idx, length, ctx):
             return True, "D4: index produced by a range/enumerate over the same slice"
+        if position_bounded(idx, length, ctx):
+            return True, "D11: index answered by position/rposition over (a prefix of) the same slice, minus at most a constant"
         ci = fold(idx)
         if ci is not None:
             lb = lower_bound(length, facts)
